@@ -47,8 +47,8 @@ type Plan struct {
 var suites = []oprf.Suite{oprf.SuiteRistretto255, oprf.SuiteP256, oprf.SuiteP384, oprf.SuiteP521}
 var zkGroups = []group.Group{group.Ristretto255, group.P256, group.P384, group.P521}
 
-var oprfFaults = []string{"", "", "eval-replace", "eval-flip", "eval-swap", "proof-c", "proof-s", "pk-other", "info-alter", "blinded-alter", "eval-identity"}
-var dleqFaults = []string{"", "proof-c", "proof-s", "proof-flip", "stmt-a", "stmt-ka", "stmt-b", "stmt-kb", "dst", "batch-swap", "batch-alter", "zero-c", "zero-s", "false-statement", "identity-statement"}
+var oprfFaults = []string{"", "", "eval-replace", "eval-flip", "eval-swap", "proof-c", "proof-s", "pk-other", "info-alter", "blinded-alter", "eval-identity", "server-forge-identity", "server-forge-replace", "server-reproof-honest"}
+var dleqFaults = []string{"", "proof-c", "proof-s", "proof-flip", "stmt-a", "stmt-ka", "stmt-b", "stmt-kb", "dst", "batch-swap", "batch-alter", "zero-c", "zero-s", "false-statement", "identity-statement", "prove-b-identity", "prove-kb-other", "prove-kb-identity"}
 var dlFaults = []string{"", "V-alter", "R-alter", "kG-alter", "G-alter", "userid", "otherinfo", "V-identity-R-zero", "false-statement"}
 var qnFaults = []string{"", "forge-hx-zero", "forge-gx-zero", "forge-h-zero", "Z-alter", "C-alter", "g-alter", "gx-alter", "h-alter", "hx-alter", "N-alter", "degenerate-secparam0", "zero-Z", "false-statement"}
 
@@ -280,6 +280,45 @@ func execOPRF(p *Plan, run *core.Run) {
 			cev.Elements[0], cev.Elements[1] = cev.Elements[1], cev.Elements[0]
 			faulted = true
 		}
+	case "server-forge-identity", "server-forge-replace", "server-reproof-honest":
+		// a malicious server: it alters one evaluated element and then runs the honest
+		// proof algorithm with its real key over the altered batch (RFC 9497 GenerateProof:
+		// VOPRF proves (G, pkS, blinded, evaluated) with skS; POPRF proves
+		// (G, G*t, evaluated, blinded) with t = skS + HashToScalar("Info" || len || info))
+		if mode == oprf.BaseMode {
+			break
+		}
+		ctxStr := append(append([]byte("OPRFV1-"), byte(p.Mode), '-'), suite.Identifier()...)
+		skb, _ := sk.MarshalBinary()
+		key := g.NewScalar()
+		if key.UnmarshalBinary(skb) != nil {
+			panic("HARNESS: private key scalar")
+		}
+		evals := append([]group.Element{}, cev.Elements...)
+		j := p.Pos % n
+		switch p.Fault {
+		case "server-forge-identity":
+			evals[j] = g.Identity()
+		case "server-forge-replace":
+			evals[j] = otherElement(g, evals[j], p.Pos)
+		}
+		bi, kbi := sreq.Elements, evals
+		if mode == oprf.PartialObliviousMode {
+			framed := append(append([]byte("Info"), byte(len(info)>>8), byte(len(info))), info...)
+			m := g.HashToScalar(framed, append([]byte("HashToScalar-"), ctxStr...))
+			key = g.NewScalar().Add(key, m)
+			bi, kbi = evals, sreq.Elements
+		}
+		forged, perr := dleq.Prover{Params: dleq.Params{G: g, H: suite.Hash(), DST: ctxStr}}.ProveBatchWithRandomness(
+			key, g.Generator(), g.NewElement().MulGen(key), bi, kbi, g.RandomNonZeroScalar(core.NewStream(p.Seed+9)))
+		if perr != nil {
+			return // the prover itself refuses: nothing reaches the client
+		}
+		cev.Elements, cev.Proof = evals, forged
+		faulted = p.Fault != "server-reproof-honest"
+		if !faulted {
+			run.Probe("reproof-with-rfc-parameters-accepted-path")
+		}
 	case "proof-c", "proof-s":
 		faulted = cev.Proof != nil
 	case "pk-other":
@@ -420,8 +459,20 @@ func execDLEQ(p *Plan, run *core.Run) {
 		bi = append(bi, b)
 		kbi = append(kbi, g.NewElement().Mul(b, k))
 	}
+	// a prover that knows k runs the honest algorithm over a false statement
+	switch p.Fault {
+	case "prove-b-identity":
+		bi[p.Pos%len(bi)] = g.Identity()
+	case "prove-kb-other":
+		kbi[p.Pos%len(bi)] = otherElement(g, kbi[p.Pos%len(bi)], p.Pos)
+	case "prove-kb-identity":
+		kbi[p.Pos%len(bi)] = g.Identity()
+	}
 	proof, err := dleq.Prover{Params: params}.ProveBatchWithRandomness(k, a, ka, bi, kbi, g.RandomNonZeroScalar(data))
 	if err != nil {
+		if strings.HasPrefix(p.Fault, "prove-") {
+			return // refusing to prove a false statement is fine
+		}
 		run.Violate(comp+".Prove", "error", "%v", err)
 		return
 	}
@@ -447,6 +498,7 @@ func execDLEQ(p *Plan, run *core.Run) {
 		for i := sl; i < 2*sl; i++ {
 			pb[i] = 0
 		}
+	case "prove-b-identity", "prove-kb-other", "prove-kb-identity":
 	case "stmt-a":
 		a = otherElement(g, a, p.Pos)
 	case "stmt-ka":
